@@ -45,7 +45,13 @@ fn lmax(unit: &Unit, idx: u64) -> usize {
 fn run_unit(unit: &Unit, r: &mut Rng, ctx: &mut Ctx) {
     for i in 0..unit.count {
         let lm = lmax(unit, i);
-        let a = gen::dec(r, lm, 10_000);
+        let a = match r.below(16) {
+            // ones written 1.00, powers of ten with any scale, zeros with any scale as the FIRST operand too
+            0 => { let k = r.range(0, 40); Dec::new(gen::pow10(k as u64) * if r.bool() { 1 } else { -1 }, k) }
+            1 => Dec::new(gen::pow10(r.below(60)), r.range(-10_000, 10_000)),
+            2 => Dec::new(BigInt::zero(), r.range(-10_000, 10_000)),
+            _ => gen::dec(r, lm, 10_000),
+        };
         let b = gen::partner(r, &a, lm, 10_000, 10_000);
         let sel = r.next();
         let case = Case::new("pair").push(a.tok()).push(b.tok()).push(sel);
